@@ -505,7 +505,7 @@ func (p *c05) Shrink(scAny any) []any {
 
 func (p *c05) Info() PropInfo {
 	return PropInfo{
-		Rule: "seeded search: sender, optional envelope sender, 1..3 To, 0..1 Cc, 0..1 Bcc addresses generated by meaning (local part: letters/digits, atext specials, the specials blank < > @ , ; : \\ \" ( ) [ ] .. TAB, UTF-8, leading/trailing/double dots, hand-picked smuggling attempts such as 'x> SIZE=1'; domain: plain, IDN, address literal; optional display names needing quoting or RFC 2047) and written out with correct RFC 5322 quoting through From/EnvelopeFrom/AddTo/AddCc/AddBcc; HELO names incl. blanks, CR/LF, UTF-8; credentials with blanks, CR/LF, = and ,; DSN option combinations; occasionally a refused MAIL/RCPT; every fifth run drives the smtp package directly: 3..10 calls of Hello/Mail/Rcpt/Verify/Noop/Reset/Data with arguments that carry unique markers, some with CR/LF, blanks or parameter injections — a refused argument's marker must never reach the wire, in that call or any later one; non-trivial = the dialogue got past the greeting; distinct = distinct (address kinds, HELO name, auth type, DSN options, mailboxes)",
+		Rule: "seeded search: addresses reach the Msg through the plain setters, the *Format setters, or the plain setters on a Msg that carried another mail and was Reset(); sender, optional envelope sender, 1..3 To, 0..1 Cc, 0..1 Bcc addresses generated by meaning (local part: letters/digits, atext specials, the specials blank < > @ , ; : \\ \" ( ) [ ] .. TAB, UTF-8, leading/trailing/double dots, hand-picked smuggling attempts such as 'x> SIZE=1'; domain: plain, IDN, address literal; optional display names needing quoting or RFC 2047) and written out with correct RFC 5322 quoting through From/EnvelopeFrom/AddTo/AddCc/AddBcc; HELO names incl. blanks, CR/LF, UTF-8; credentials with blanks, CR/LF, = and ,; DSN option combinations; occasionally a refused MAIL/RCPT; every fifth run drives the smtp package directly: 3..10 calls of Hello/Mail/Rcpt/Verify/Noop/Reset/Data with arguments that carry unique markers, some with CR/LF, blanks or parameter injections — a refused argument's marker must never reach the wire, in that call or any later one; non-trivial = the dialogue got past the greeting; distinct = distinct (address kinds, HELO name, auth type, DSN options, mailboxes)",
 		Assumptions: []string{"'the mailbox the caller put on the message' is the (local part, domain) pair the address was generated from; its textual form is produced by net/mail's Address.String, independent of go-mail",
 			"an address the setter refuses is simply not part of the message (counted, not judged)",
 			"SMTPUTF8 and 8BITMIME are always advertised here, so non-ASCII paths are legal on the wire (advertising is C04's subject)"},
